@@ -1,5 +1,7 @@
 // Positive control for the nondeterminism-source scanner (hexsa/nondet.py): one instance of every pattern.
 // Analysed with the same clang plugin on every run; the rule must find all of them, otherwise it is broken.
+#include <cerrno>
+#include <cstdlib>
 #include <chrono>
 #include <cstdint>
 #include <cstdlib>
@@ -33,5 +35,14 @@ int sources(Node *n, const std::string &s) {
   size_t h = std::hash<std::string>()(s);
   clock_t c = std::clock();
   return (int)(a + b + r + t + h + c + (e ? 1 : 0) + rd() + now.time_since_epoch().count());
+}
+int buffers(size_t n, const char *digits) {
+  char *raw = new char[n];                    // uninitialised dynamic buffer
+  raw[0] = 1;
+  int r = raw[n - 1];
+  delete[] raw;
+  unsigned long v = std::strtoul(digits, nullptr, 10);
+  if (errno == ERANGE) r++;                   // errno read without having been reset in this function
+  return r + (int)v;
 }
 }
